@@ -29,10 +29,11 @@ func (d *DatasourceExecuting) Run(ctx ExecutionContext, produce ProduceFn, metaS
 		return fmt.Errorf("couldn't stat file: %w", err)
 	}
 
-	pf, err := parquet.OpenFile(f, stat.Size(), &parquet.FileConfig{
-		SkipPageIndex:    true,
-		SkipBloomFilters: true,
-	})
+	// Passing a *parquet.FileConfig as an option has no effect in this version of parquet-go.
+	pf, err := parquet.OpenFile(f, stat.Size(), parquet.SkipPageIndex(true), parquet.SkipBloomFilters(true))
+	if err != nil {
+		return fmt.Errorf("couldn't open parquet file: %w", err)
+	}
 	usedFields := make([]string, len(d.fields))
 	for i := range usedFields {
 		usedFields[i] = d.fields[i].Name
